@@ -201,6 +201,17 @@ fn main() {
             bits::run_resize::<U8, U7>(&mut ctx);
             bits::run_resize::<U64, U63>(&mut ctx);
             bits::run_resize::<U1024, U1023>(&mut ctx);
+            // pairs that need the same number of bytes, below and above the inline storage size
+            bits::run_resize::<U2048, U2047>(&mut ctx);
+            bits::run_resize::<U2047, U2048>(&mut ctx);
+            bits::run_resize::<U2048, Diff<U2048, U7>>(&mut ctx);
+            bits::run_resize::<U2048, Diff<U2048, U8>>(&mut ctx);
+            bits::run_resize::<Sum<U1024, U8>, Sum<U1024, U1>>(&mut ctx);
+            bits::run_resize::<Sum<U1024, U1>, Sum<U1024, U8>>(&mut ctx);
+            bits::run_resize::<U4096, U4095>(&mut ctx);
+            bits::run_resize::<U1024, U1017>(&mut ctx);
+            bits::run_resize::<U128, U121>(&mut ctx);
+            bits::run_resize::<U24, U17>(&mut ctx);
         }
     }
     if ctx.on("serde") {
@@ -221,6 +232,7 @@ fn main() {
         if ctx.on("derive") {
             use derive::run_derive;
             for_each_derived!(run_derive, &mut ctx);
+            derive::run_derive_borrowed(&mut ctx);
         }
         if ctx.on("legacy") {
             derive::run_legacy(&mut ctx);
@@ -231,6 +243,9 @@ fn main() {
         if ctx.on("derive") || ctx.on("legacy") {
             ctx.out.m("derive", "derive-catalogue-does-not-compile", &["accepts", "DS--()"]);
         }
+    }
+    if ctx.on("dec") && ctx.only_type.is_none() && ctx.replay.is_none() && (ctx.type_filter.is_empty() || ctx.type_filter.iter().any(|f| f == "S(" || f == "M(")) {
+        codec::run_coarse_keys(&mut ctx);
     }
     if ctx.on("meta") || ctx.on("enc") || ctx.on("entry") || ctx.on("dec") || ctx.on("alloc") {
         for_each_type!(run_type, &mut ctx);
